@@ -33,10 +33,10 @@ fn plan(tier: Tier) -> Vec<Unit> {
             v
         }
         Tier::Thorough => {
-            let mut v = crate::util::split_budget("round", 6_000_000, 10_000);
+            let mut v = crate::util::split_budget("round", 12_000_000, 10_000);
             v.extend(crate::util::split_budget("allp", 400_000, 2_000));
-            v.extend(crate::util::split_budget("ties", 4_000_000, 10_000));
-            v.extend(crate::util::split_budget("sums", 4_000_000, 10_000));
+            v.extend(crate::util::split_budget("ties", 12_000_000, 10_000));
+            v.extend(crate::util::split_budget("sums", 8_000_000, 10_000));
             v
         }
         Tier::Miri => {
